@@ -9,7 +9,7 @@ from beziers.cubicbezier import CubicBezier
 RULE = ('lines >= 1 unit long (random, axis-parallel, steep with dx in [1e-7,1e-1], long with large coordinates) x t in [0,1]; quadratics incl. '
         'linear-in-x / linear-in-y ones x t at least 1e-3 from stationary parameters; cubics without self-overlap (monotone-ish fans) x t; '
         'off-carrier points for the negative case; non-trivial = distinct (segment, t)')
-NOT_PROVED = ['cubic lookup (coarse search; within 2% of the length): hand-modelled through the sampler, search only',
+NOT_PROVED = ['cubic lookup (coarse search; within 2% of the length): regenerated (Gen/Lookup.v) and proved for gently parametrised cubics at least 103 long (Proofs/C15cubic.v); otherwise search only',
               'floating-point tolerance for LINES: PROVED (Proofs/C15float.v, Flocq): for finite coordinates |c| <= M, 1 <= M <= 2^25, larger extent >= 1/2 and finite t in [0,1] the binary64 lookup of the binary64 point at t passes its own 2e-7 re-check, is the correctly rounded quotient in a coordinate of (almost) maximal extent, differs from t by at most 14*2^-53*M/extent, and its point is within 30*2^-53*M <= 1e-9*M of the query; it is never the sentinel -1 and lies in [-2^-23, 1+2^-23] -- membership in [0,1] itself is FALSE in floats (two witnesses, the recorded finding); for quadratics (1e-6) the float tolerance is measured']
 ASSUMPTIONS = ['Python float = IEEE binary64', 'Coq.Floats.FloatAxioms / Uint63 specification axioms (stdlib) for the float-instance theorems']
 HAND_FINGERPRINTS = [('cubicbezier.py', 'CubicBezier.tOfPoint')]
@@ -17,8 +17,12 @@ P = Point
 
 
 def correspond(ctx):
-    return kernels.cross_check('C15', ['Line_tOfPoint', 'Quad_tOfPoint', 'utils_quadraticRoots', 'Line_pointAtTime', 'Quad_pointAtTime', 'Point_distanceFrom'],
-                               ctx.n(120, 2000), ctx.rng)
+    res = kernels.cross_check('C15', ['Line_tOfPoint', 'Quad_tOfPoint', 'utils_quadraticRoots', 'Line_pointAtTime', 'Quad_pointAtTime', 'Point_distanceFrom'],
+                              ctx.n(120, 2000), ctx.rng)
+    # the cubic lookup as regenerated from cubicbezier.py (round 7, Gen/Lookup.v: the scan over regularSampleTValue(50) and the bisection as a fuelled loop,
+    # float("inf") as an option), on cubics 5 .. 600 units long, queries on and off the curve; the theorems of Proofs/C15cubic.v are about this text
+    kernels.merge_cross_check(res, 'C15', ['Cubic_tOfPoint'], ctx.n(40, 400), ctx.rng, label='regenerated-kernels-round7')
+    return res
 
 
 def gen_line(rng):
